@@ -406,11 +406,21 @@ func main() {
 	fmt.Printf("check %s %s: %d evaluations, %d distinct non-trivial, %d violations, %.1fs\n", prop, tier, evals, int64(len(hashes))+bulk, len(violations), time.Since(start).Seconds())
 	if len(violations) > 0 {
 		seen := map[string]bool{}
-		for _, v := range violations {
+		keep := filepath.Join(root(), "out", "violations")
+		_ = os.MkdirAll(keep, 0o755)
+		for i := range violations {
+			v := &violations[i]
 			if seen[v.Replay] {
 				continue
 			}
 			seen[v.Replay] = true
+			// the per-property out directory is wiped by the next run: keep a copy
+			if b, err := os.ReadFile(v.Replay); err == nil && strings.HasPrefix(v.Replay, outDir) {
+				dst := filepath.Join(keep, fmt.Sprintf("%s-seed%d-%s", prop, verifSeed, filepath.Base(v.Replay)))
+				if os.WriteFile(dst, b, 0o644) == nil {
+					v.Replay = dst
+				}
+			}
 			fmt.Printf("VIOLATION property=%s replay=%s\n", prop, v.Replay)
 			fmt.Printf("  %s\n", firstLine(v.Message))
 		}
